@@ -190,7 +190,8 @@ Inductive uop :=
 | OSearch (v : zs) | OHref (v : zs) | OMaterialise
 | OAppend (n v : zs) | ODelete (n : zs) | OSet (n v : zs) | OSort
 | OPort (a : portarg) | OProtocol (p : zs) | OHost (v : zs) | OHostname (v : zs)
-| OHash (v : zs) | OPath (v : zs).
+| OHash (v : zs) | OPath (v : zs)
+| OUserinfo.    (* username / password assigned: the setters as written touch url.User only, none of the modelled fields *)
 
 Definition trim_hash (s : zs) : zs := match s with 35 :: r => r | _ => s end.
 
@@ -209,6 +210,7 @@ Definition ustep (s : ustate) (o : uop) : ustate :=
   | OHostname v => fst (set_hostname s v)
   | OHash v => s <| fragment := trim_hash v |>
   | OPath v => s <| upath := clean_path v (scheme s) |>
+  | OUserinfo => s
   end.
 
 Definition urun (s : ustate) (ops : list uop) : ustate := fold_left ustep ops s.
